@@ -43,6 +43,11 @@ class Work:
         if self.dir.exists():
             shutil.rmtree(self.dir)
         self.dir.mkdir(parents=True)
+        # scratch directories of runs that were killed (their process no longer exists) are removed as well: they can be large
+        for d in self.dir.parent.glob(f"{pid}-*"):
+            owner = d.name.rsplit("-", 1)[-1]
+            if d.is_dir() and owner.isdigit() and int(owner) != os.getpid() and not os.path.exists(f"/proc/{owner}"):
+                shutil.rmtree(d, ignore_errors=True)
 
     def path(self, name: str) -> Path:
         return self.dir / name
